@@ -329,8 +329,12 @@ func execC13(raw json.RawMessage, wantLog bool) (out Outcome) {
 	seq = s.seq
 	if deadlocked {
 		out.Poisoned = true
-		out.Violate("C13", "deadlock", "all workers are waiting for index locks (%d workers, %d steps)", len(c.Workers), s.steps)
-		s.close()
+		out.Violate("C13", "deadlock", "all workers are waiting for index locks (%d workers, %d steps): %s", len(c.Workers), s.steps, s.describeBlocked())
+		// the workers of a deadlocked run must never run on (closing their pipes would give
+		// them end-of-file and let them meddle with the next run): they are moved to a wait
+		// that holds no OS thread and stay there
+		s.abandon()
+		sched = nil
 		return
 	}
 	s.close()
